@@ -983,7 +983,16 @@ void childRestart(const Config &cfg, const std::string &dir, const RestartInfo &
     vdev::active = true;
     w.installMonitor();
     w.open();
+    long rot0 = w.rotations;
     followUpWrites(w, cfg);
+    // Retention after a crash: no call fails in this process, so once it has rotated (and cleaned up) at least twice the directory must
+    // be within the limit again - counting FILES, as the property does: a plain rotated file and a .gz of the same name that a crash
+    // left side by side are two files. (During the crashed process itself, and under injected faults, the count oracle does not apply.)
+    if (cfg.N >= 2 && w.rotations - rot0 >= 2) {
+        int n = 0; std::string names;
+        for (auto &e : snapshot(dir)) if (parseScheme(e.name, cfg.shape).ok) { n++; names += " " + e.name; }
+        if (n + 1 > cfg.N) w.violate("C06:too-many-after-restart", std::to_string(n + 1) + " log files exist (active +" + names + ") after a restart and " + std::to_string(w.rotations - rot0) + " further rotations, limit " + std::to_string(cfg.N));
+    }
     exportViols(w);
     exportTimes(dir);
     g_sh->done = 1;
